@@ -2,6 +2,7 @@ package main
 
 import (
 	"encoding/json"
+	"os"
 	"errors"
 	"fmt"
 	"sort"
@@ -11,7 +12,11 @@ import (
 
 	"github.com/piprate/json-gold/ld"
 
+	"crypto/sha256"
+
+	"github.com/hyperledger/aries-framework-go/component/kmscrypto/crypto/primitive/bbs12381g2pub"
 	"github.com/hyperledger/aries-framework-go/component/kmscrypto/doc/util/fingerprint"
+	"github.com/hyperledger/aries-framework-go/component/models/signature/suite/bbsblssignature2020"
 	ldcontext "github.com/hyperledger/aries-framework-go/component/models/ld/context"
 	"github.com/hyperledger/aries-framework-go/component/models/ld/processor"
 	"github.com/hyperledger/aries-framework-go/component/models/ld/testutil"
@@ -32,7 +37,7 @@ const (
 	baseSec = 1577836800 // 2020-01-01T00:00:00Z; issuanceDate = base + index identifies the holder's credential
 )
 
-var proofNames = map[int]string{1: "Ed25519Signature2018", 2: "JsonWebSignature2020", 3: "BbsBlsSignature2020"}
+var proofNames = map[int]string{1: "Ed25519Signature2018", 2: "JsonWebSignature2020", 3: "BbsBlsSignature2020", 4: "BbsBlsSignatureProof2020"}
 var algNames = map[int]string{1: "EdDSA", 2: "ES256", 3: "ES384"}
 
 func typeName(t int) string {
@@ -61,7 +66,26 @@ type env struct {
 	credOpt []verifiable.CredentialOpt
 	// lastDisc: number of SD-JWT disclosures of the credential projectCred saw last (0 for other credentials)
 	lastDisc int
+	bbsPriv  []byte
+	bbsPub   []byte
 }
+
+// bbsSigner signs the canonical statements of a document with BBS+ (one message per line).
+type bbsSigner struct{ priv []byte }
+
+func (b *bbsSigner) Sign(data []byte) ([]byte, error) {
+	var msgs [][]byte
+
+	for _, l := range strings.Split(string(data), "\n") {
+		if strings.TrimSpace(l) != "" {
+			msgs = append(msgs, []byte(l))
+		}
+	}
+
+	return bbs12381g2pub.New().Sign(msgs, b.priv)
+}
+
+func (b *bbsSigner) Alg() string { return "" }
 
 func newEnv() *env {
 	terms := map[string]interface{}{"@version": 1.1}
@@ -92,7 +116,19 @@ func newEnv() *env {
 	did, vm := fingerprint.CreateDIDKeyByCode(fingerprint.ED25519PubKeyMultiCodec, ed.PublicKeyBytes())
 
 	e := &env{loader: loader, ed: ed, p256: p256, edDID: did, edVM: vm}
-	e.credOpt = []verifiable.CredentialOpt{verifiable.WithJSONLDDocumentLoader(loader), verifiable.WithDisabledProofCheck()}
+
+	seed := sha256.Sum256([]byte("verif c20 bbs issuer key"))
+	bpub, bpriv, err := bbs12381g2pub.GenerateKeyPair(sha256.New, seed[:])
+	must(err)
+
+	e.bbsPub, err = bpub.Marshal()
+	must(err)
+	e.bbsPriv, err = bpriv.Marshal()
+	must(err)
+
+	// the public key fetcher serves the BBS+ issuer key: the holder derives selective-disclosure proofs with it
+	e.credOpt = []verifiable.CredentialOpt{verifiable.WithJSONLDDocumentLoader(loader), verifiable.WithDisabledProofCheck(),
+		verifiable.WithPublicKeyFetcher(verifiable.SingleKey(e.bbsPub, "Bls12381G2Key2020"))}
 
 	return e
 }
@@ -127,6 +163,18 @@ func keyPath(k int) string {
 
 func didOf(n int) string { return "did:ex:" + strconv.Itoa(n) }
 
+func credContexts(c Cred) []interface{} {
+	out := []interface{}{verifiable.ContextURI, ctxURL}
+
+	for _, p := range c.Proofs {
+		if p == 3 {
+			out = append(out, "https://w3id.org/security/bbs/v1")
+		}
+	}
+
+	return out
+}
+
 // credJSON is the credential as an issuer would serialise it.
 func credJSON(c Cred, idx int) map[string]interface{} {
 	types := make([]interface{}, len(c.Types))
@@ -155,7 +203,7 @@ func credJSON(c Cred, idx int) map[string]interface{} {
 	}
 
 	m := map[string]interface{}{
-		"@context":          []interface{}{verifiable.ContextURI, ctxURL},
+		"@context":          credContexts(c),
 		"type":              types,
 		"issuer":            didOf(c.Issuer),
 		"issuanceDate":      time.Unix(baseSec+int64(idx), 0).UTC().Format(time.RFC3339),
@@ -233,6 +281,10 @@ func (e *env) buildCred(c Cred, idx int) (*verifiable.Credential, error) {
 			lc.Suite = ed25519signature2018.New(suite.WithSigner(e.ed))
 		case 2:
 			lc.Suite = jsonwebsignature2020.New(suite.WithSigner(e.ed))
+		case 3:
+			lc.Suite = bbsblssignature2020.New(suite.WithSigner(&bbsSigner{priv: e.bbsPriv}))
+			lc.SignatureRepresentation = verifiable.SignatureProofValue
+			lc.VerificationMethod = "did:ex:" + strconv.Itoa(c.Issuer) + "#bbs"
 		default:
 			return nil, errors.New("proof type not built by this harness")
 		}
@@ -491,6 +543,8 @@ func projVal(v interface{}) Val {
 		return Val{T: "s", S: sn}
 	case bool:
 		return Val{T: "b", B: x}
+	case nil:
+		return Val{T: "z"}
 	case []interface{}:
 		// arrays are [ "e<code>", code ]; anything else (re-indexed, truncated) projects to another code
 		if len(x) == 2 {
@@ -734,6 +788,10 @@ func (e *env) runCase(c Case) (*Obs, error) {
 	vpBytes, err := vp.MarshalJSON()
 	if err != nil {
 		return nil, fmt.Errorf("marshal vp: %w", err)
+	}
+
+	if os.Getenv("C20_DEBUG") != "" {
+		fmt.Fprintln(os.Stderr, string(vpBytes))
 	}
 
 	var vpMap map[string]interface{}
